@@ -346,6 +346,18 @@ def main():
             add("header-form", pt, hsrc)
             add("header-form", b"@@\n@@\n-zz()\n+yy()\n\n" + pt, hsrc)            # as the second change
             add("header-form", b"# about\n\n" + pt + b"\n" + (h1 + "\n" + h2 + "\n-bar(1)\n+baz(1)\n").encode("latin-1"), hsrc)
+    # metavariable sections in every shape: stray and doubled separators, declarations broken over lines, comments, empty
+    # declarations, keywords and literals where names belong
+    METAS = ["var x expression;", "var x expression;;", ";", ";;", ";var x expression", "var x expression;\n;", "var x expression\n;\nvar y identifier",
+             "var x, y expression", "var x,\n  y expression", "var x expression; var y identifier", "var (x expression)", "var x", "var", "var x expression y",
+             "var x, expression", "var , x expression", "x expression", "var x expression,", "var var expression", "var x var", "var x 1", "var 1 expression",
+             "var x expression // c", "/* c */ var x expression", "var x /* c */ expression", "var x expression /*", "var x expression \"", "var x expression `",
+             "var _ expression", "var x expression\nvar x identifier", "var x expression\n\n\nvar y expression", "\tvar x expression", "var\tx\texpression",
+             "var x expression\r", "var x expression\x00", "var \xc3\xa9 expression", "var x \xc3\xa9", "func x()", "type x expression", "var x = expression",
+             "var x := expression", "var x.y expression", "var x expression.", "var x *expression", "var x []expression", "var x ...expression"]
+    for mt in METAS:
+        add("meta-form", ("@@\n" + mt + "\n@@\n-foo(x)\n+bar(x)\n").encode("latin-1"), hsrc)
+        add("meta-form", ("@@\n@@\n-zz()\n+yy()\n\n@@\n" + mt + "\n@@\n-foo(x)\n+bar(x)\n").encode("latin-1"), hsrc)
     # deeply nested code (calls in arguments, composite literals, function literals, blocks), several rewritten sites and
     # unchanged deep neighbours in one list: time must not explode with the depth
     def d_unary(d, leaf): return "w(" * d + leaf + ")" * d
